@@ -236,6 +236,7 @@ ccoPrint(FILE *fout, CCode cco, CCodeMode mode)
 	ccoPrMode	  = mode;
 	ccoPrMargin	  = ccoLEFT_MARGIN;
 	ccoInFunDecl	  = false;
+	wrote_fputc	  = 0;	/* one patched declaration per file printed */
 
 	ccoFileName	  = 0;
 	ccoFileNamePrev	  = 0;
